@@ -252,11 +252,25 @@ public:
   }
 
   virtual bool operator<=(const powerset_domain_t &other) const override {
-    powerset_domain_t pow_left(*this);
-    powerset_domain_t pow_right(other);
-    Domain left = smash_disjuncts(pow_left);
-    Domain right = smash_disjuncts(pow_right);
-    return left <= right;
+    if (is_bottom() || other.is_top()) {
+      return true;
+    }
+    // Every disjunct on the left must be included in some disjunct on
+    // the right. Comparing the joins of the disjuncts is unsound
+    // because the join of the right operand over-approximates it.
+    for (unsigned i = 0, sz = m_disjuncts.size(); i < sz; ++i) {
+      bool included = false;
+      for (unsigned j = 0, sz_o = other.m_disjuncts.size(); j < sz_o; ++j) {
+        if (m_disjuncts[i] <= other.m_disjuncts[j]) {
+          included = true;
+          break;
+        }
+      }
+      if (!included) {
+        return false;
+      }
+    }
+    return true;
   }
 
   virtual void operator|=(const powerset_domain_t &other) override {
